@@ -158,8 +158,11 @@ pub fn run(scn: &MScn, oracles: &[Oracle], out: &mut Outcome, fp: &mut Fp, tr: &
                     let pre_depth = m.depth;
 
                     let _ = w.log.take();
-                    if has(Oracle::Observer) {
-                        // per-step sets: the marks kept for the host accesses in between are dropped here
+                    // two ways of using the observer, chosen per scenario: (a) the host drains it after every
+                    // step and nothing else; (b) the last step's marks stay visible to the host accesses
+                    // that follow and are cleared before the next step
+                    let keep_marks = scn.entropy & 1 == 0;
+                    if has(Oracle::Observer) && keep_marks {
                         w.sim.observer.clear();
                     }
                     let res = match guarded(|| w.sim.step_in()) {
@@ -168,7 +171,7 @@ pub fn run(scn: &MScn, oracles: &[Oracle], out: &mut Outcome, fp: &mut Fp, tr: &
                     };
                     let recs = w.log.take();
                     let acc: Vec<(u16, lc3_ensemble::sim::observer::AccessSet)> = w.sim.observer.take_mem_accesses().collect();
-                    if has(Oracle::Observer) {
+                    if has(Oracle::Observer) && keep_marks {
                         // a host that inspects the observer after a step sees these marks; untracked host
                         // accesses made before the next step must leave every one of them as it is
                         for (a, s) in &acc {
